@@ -259,6 +259,19 @@ static void run_common (run_ctx *c, rt_config *cfg, interp_result *res) {
 		return;
 	}
 	if (f->tune != NULL) f->tune (c, cfg);
+	if (c->family != FAM_SEM && cfg->sem_flavour == RT_SEM_FUTEX && cfg->futex_faults == NULL && (cfg->seed & 3) == 0) {
+		/* The real futex file runs under every family, so let the modelled kernel misbehave there too (SEM programs
+		   generate and enumerate their own vectors): in a quarter of the futex-flavour cases one or two of the first
+		   six FUTEX_WAITs return EINTR, EAGAIN or a premature ETIMEDOUT - answers a real kernel may give, and which
+		   the semaphore has to absorb without the layers above noticing (round-7 seed M10: the premature ETIMEDOUT
+		   was believed, and a cancel note was notified before its deadline).  Derived from the seed word, so the
+		   tape layout is unchanged.  */
+		uint32_t x = (uint32_t) (cfg->seed >> 2);
+		memset (c->faults, 0, sizeof (c->faults));
+		c->faults[x % 6] = (uint8_t) (1 + (x >> 3) % 3);
+		if ((x >> 5) & 1) c->faults[(x >> 6) % 6] = (uint8_t) (1 + (x >> 9) % 3);
+		cfg->futex_faults = c->faults; cfg->nfutex_faults = 8;
+	}
 	hooks.setup = f->setup;
 	hooks.at_quiescence = f->at_quiescence;
 	hooks.finish = f->finish;
